@@ -157,6 +157,12 @@ def run(ctx):
                 ctx.check(okh, "D4-HEX", fn, "ok-path-%d" % i, "Ok(%s(finalize())) where the helper appends {:02x} of every byte in order" % hk.split("::")[-1],
                           "the result is %s(finalize()) but %s" % (hk, why), fn_span(body))
                 continue
+            if isinstance(hv, tuple) and hv and hv[0] in ("havoc", "mutated") and not is_call(v, "::fold"):
+                # the same encoding as a loop in this function: for b in finalize().iter() { out.push_str(&format!("{b:02x}")) }  Ok(out)
+                okh, why = hex_helper(ctx, fx, fn, sp["hex_template"], inline=True)
+                ctx.check(okh, "D4-HEX", fn, "ok-path-%d" % i, "Ok(String built by a loop appending {:02x} of every finalize() byte in order)",
+                          "the result is a String accumulated in this function but %s" % why, fn_span(body))
+                continue
             good = is_call(v, "::fold")
             detail = term_str(v)
             if good:
@@ -193,16 +199,20 @@ def run(ctx):
         body = ctx.body(fn)
         for i, p in enumerate(ret_paths(paths)):
             ups = [e for e in p.events if e.kind == "call" and e.path.endswith("::update")]
-            ok = len(ups) == 1 and strip_refs(ups[0].args[1]) == ("param", 1)
+            u1 = strip_refs(ups[0].args[1]) if len(ups) == 1 else None
+            if is_call(u1, "str>::as_bytes", "String::as_bytes", "AsRef") and call_args(u1):
+                u1 = strip_refs(call_args(u1)[0])       # the same bytes (update takes impl AsRef<[u8]>)
+            ok = len(ups) == 1 and u1 == ("param", 1)
             ctx.check(ok, "D3-STR", fn, "path-%d" % i, "update(hasher, s) exactly once",
                       "expected exactly one update with the input string, found %s" % [term_str(u.args[1]) for u in ups], fn_span(body))
 
     patch_filter(ctx, fx, sp)
 
 
-def hex_helper(ctx, fx, hk, template):
+def hex_helper(ctx, fx, hk, template, inline=False):
     """a helper fn(bytes) -> String that encodes its argument: one loop driven by a slice iterator over the parameter, one format site
-    with the hex template inside that loop whose argument is the loop element, the returned String starts empty and is only appended to"""
+    with the hex template inside that loop whose argument is the loop element, the returned String starts empty and is only appended to.
+    inline=True: the same loop written in the hashing function itself, over the output of finalize() of its hasher, the String returned in Ok(..)"""
     hb = ctx.body(hk)
     hps = ctx.paths(hk)
     if hb is None or not hps:
@@ -211,14 +221,25 @@ def hex_helper(ctx, fx, hk, template):
     nibbles = tmpl == []
     if not nibbles and tmpl != [template]:
         return False, "it formats with %s, expected exactly [%r] (two lower-case hex digits per byte)" % (tmpl, template)
-    if len(hb.loops) != 1:
-        return False, "it has %d loops, expected one over the bytes" % len(hb.loops)
-    h = next(iter(hb.loops))
-    drv = [c for p in hps for c in p.conds() if c.term[0] == "discr" and is_call(strip_refs(c.term[1]), "::next") and strip_refs(c.term[1])[4] == h]
     from lib import _iter_source
+    if inline:
+        # the loop that walks the finalize() output (the function may have another loop that feeds the hasher)
+        cand = []
+        for h_ in hb.loops:
+            d_ = [c for p in hps for c in p.conds() if c.term[0] == "discr" and is_call(strip_refs(c.term[1]), "::next") and strip_refs(c.term[1])[4] == h_]
+            if d_ and is_call(_iter_source(call_args(strip_refs(d_[0].term[1]))[0]), "::finalize"):
+                cand.append(h_)
+        if len(cand) != 1:
+            return False, "it has %d loops over the finalize() output, expected one" % len(cand)
+        h = cand[0]
+    else:
+        if len(hb.loops) != 1:
+            return False, "it has %d loops, expected one over the bytes" % len(hb.loops)
+        h = next(iter(hb.loops))
+    drv = [c for p in hps for c in p.conds() if c.term[0] == "discr" and is_call(strip_refs(c.term[1]), "::next") and strip_refs(c.term[1])[4] == h]
     src = _iter_source(call_args(strip_refs(drv[0].term[1]))[0]) if drv else None
     # the bytes it is given, or the output of finalize() of the hasher it is given
-    src_ok = src == ("param", 1) or (is_call(src, "::finalize") and strip_refs(call_args(src)[0]) == ("param", 1))
+    src_ok = src == ("param", 1) or (is_call(src, "::finalize") and strip_refs(call_args(src)[0]) == ("param", 1)) or (inline and is_call(src, "::finalize"))
     if not drv or "slice::Iter" not in strip_refs(drv[0].term[1])[1] or not src_ok:
         return False, "its loop is not a forward iteration over the slice it is given"
     if nibbles:
@@ -269,6 +290,10 @@ def hex_helper(ctx, fx, hk, template):
     if not elem_ok and not nibbles:
         return False, "the formatted value is not the byte the loop is looking at"
     rets = ret_paths(hps)
+    if inline:
+        rets = [PathWith(p, []) for p in rets if unwrap_ok(p.end[1]) is not None]
+        for p in rets:
+            p.end = ("return", unwrap_ok(p.end[1]))
     locs = {p.end[1][1] for p in rets if isinstance(p.end[1], tuple) and p.end[1][0] in ("havoc", "mutated")}
     if len(locs) != 1 or len(rets) != sum(1 for p in rets if isinstance(p.end[1], tuple) and p.end[1][0] in ("havoc", "mutated")):
         return False, "it does not return the String it accumulates"
